@@ -15,6 +15,10 @@
    History: until /repo commit d10af45 `_as_args` fell back to arrival order when a name outside the signature
    reached a function without **kwargs (finding C13-K1 = C12-K1); the former refutations are now the Examples
    C13_K1_witness_fixed.
+   History independence: the model is a pure function of (signature, declaration, call); that the implementation has
+   no memory either (e.g. nothing cached on Parameter objects shared by several decorated functions) is checked by
+   the correspondence stream `validate-shared` (harness/v_common.py gen_shared): sequences of calls of functions
+   decorated with the SAME Parameter objects, every call compared with the model of that call alone.
    Functions with *args keep arrival order on purpose (repository test
    test_return_as_args_advanced_different_order); the property text excludes them and so does the model.   *)
 From Coq Require Import List Arith Bool Permutation.
